@@ -74,10 +74,12 @@ func (a zpoly) String() string {
 
 // bigEval interprets math/big statements of a loop body over zpoly values.
 type bigEval struct {
-	pkg  *packages.Package
-	env  map[string]zpoly
-	fail string
-	sent []zpoly
+	p     *load.Program
+	depth int
+	pkg   *packages.Package
+	env   map[string]zpoly
+	fail  string
+	sent  []zpoly
 }
 
 func (b *bigEval) val(e ast.Expr) zpoly {
@@ -106,6 +108,14 @@ func (b *bigEval) val(e ast.Expr) zpoly {
 			return b.val(c.Args[0])
 		}
 		_ = recv
+		// a helper of the package (a field-arithmetic method, a reduce function): its body is interpreted with
+		// the parameters bound to the argument values
+		if v, ok := b.inline(c); ok {
+			return v
+		}
+	}
+	if u, ok := e.(*ast.UnaryExpr); ok && u.Op == token.AND {
+		return b.val(u.X)
 	}
 	k := baseName(e)
 	if v, ok := b.env[k]; ok {
@@ -115,6 +125,78 @@ func (b *bigEval) val(e ast.Expr) zpoly {
 		b.fail = "value of " + types.ExprString(e) + " is not known"
 	}
 	return nil
+}
+
+// inline interprets a call of a function declared in the package under analysis: parameters are bound to
+// the values of the arguments, the statements run in the same environment (fields of the receiver are
+// named by their selector), and the value of the returned expression is the call's value.
+func (b *bigEval) inline(c *ast.CallExpr) (zpoly, bool) {
+	if b.p == nil || b.depth > 3 {
+		return nil, false
+	}
+	var id *ast.Ident
+	switch f := ast.Unparen(c.Fun).(type) {
+	case *ast.Ident:
+		id = f
+	case *ast.SelectorExpr:
+		id = f.Sel
+	}
+	if id == nil {
+		return nil, false
+	}
+	fn, ok := b.pkg.TypesInfo.Uses[id].(*types.Func)
+	if !ok || fn.Pkg() == nil || fn.Pkg() != b.pkg.Types {
+		return nil, false
+	}
+	_, fd := declOf(b.p, fn)
+	if fd == nil || fd.Body == nil {
+		return nil, false
+	}
+	i := 0
+	saved := map[string]zpoly{}
+	var bound []string
+	for _, f := range fd.Type.Params.List {
+		for _, n := range f.Names {
+			if i < len(c.Args) {
+				if tv, ok := b.pkg.TypesInfo.Types[c.Args[i]]; ok && strings.Contains(tv.Type.String(), "big.Int") {
+					v := b.val(c.Args[i])
+					if v == nil {
+						return nil, true
+					}
+					if old, had := b.env[n.Name]; had {
+						saved[n.Name] = old
+					}
+					b.env[n.Name] = v
+					bound = append(bound, n.Name)
+				}
+			}
+			i++
+		}
+	}
+	b.depth++
+	var ret zpoly
+	done := false
+	for _, st := range fd.Body.List {
+		if r, ok := st.(*ast.ReturnStmt); ok {
+			if len(r.Results) >= 1 {
+				ret = b.val(r.Results[0])
+				done = true
+			}
+			break
+		}
+		b.stmts([]ast.Stmt{st})
+	}
+	b.depth--
+	for _, n := range bound {
+		delete(b.env, n)
+	}
+	for n, v := range saved {
+		b.env[n] = v
+	}
+	if !done {
+		return nil, false
+	}
+	return ret, true
 }
 
 func (b *bigEval) stmts(list []ast.Stmt) {
@@ -166,7 +248,7 @@ func C20arith(p *load.Program, run *report.Run) {
 	if pkg == nil || fs == nil || fr == nil {
 		run.Undecided("vole-product-shares", "vole.Sender.Mul", "", "function not found")
 	} else {
-		be := &bigEval{pkg: pkg, env: map[string]zpoly{"pad": zvar("r"), "inputs": zvar("x"), "yb": zvar("y")}}
+		be := &bigEval{p: p, pkg: pkg, env: map[string]zpoly{"pad": zvar("r"), "inputs": zvar("x"), "yb": zvar("y")}}
 		var loops []*ast.ForStmt
 		for _, s := range fs.Body.List {
 			if f, ok := s.(*ast.ForStmt); ok {
